@@ -125,11 +125,9 @@ def noUnusedFragments (d : Doc) : Prop :=
 /-- rules of the model for which no `rule_*_iff` theorem exists yet: their verdict equivalence and
     invariance rest on the correspondence check (harness/corr/C06_model.py) -/
 def Unproved : List String :=
-  ["FragmentsOnCompositeTypesChecker", "ScalarLeafsChecker", "FieldsOnCorrectTypeChecker",
-   "NoUnusedFragmentsChecker", "PossibleFragmentSpreadsChecker", "NoFragmentCyclesChecker",
-   "UniqueVariableNamesChecker", "NoUndefinedVariablesChecker", "NoUnusedVariablesChecker",
-   "KnownDirectivesChecker", "KnownArgumentNamesChecker", "ValuesOfCorrectTypeChecker",
-   "ProvidedRequiredArgumentsChecker", "VariablesInAllowedPositionChecker",
-   "OverlappingFieldsCanBeMergedChecker", "UniqueInputFieldNamesChecker"]
+  ["FragmentsOnCompositeTypesChecker", "NoUnusedFragmentsChecker", "PossibleFragmentSpreadsChecker",
+   "NoFragmentCyclesChecker", "UniqueVariableNamesChecker", "NoUndefinedVariablesChecker",
+   "NoUnusedVariablesChecker", "KnownDirectivesChecker", "ValuesOfCorrectTypeChecker",
+   "VariablesInAllowedPositionChecker", "OverlappingFieldsCanBeMergedChecker", "UniqueInputFieldNamesChecker"]
 
 end PyGql.Validate.Spec
